@@ -346,15 +346,25 @@ impl Im2Col<'_, i8> {
                             let src_elem =
                                 unsafe { *img_data.get_unchecked(offsets_array[idx] as usize) };
 
+                            // Elements in the image's padding region are set to
+                            // the zero point, so that they do not contribute to
+                            // the result. Rows added to pad the matrix to a
+                            // multiple of `K_TILE` are zero.
+                            let src_elem = if k >= self.n_rows {
+                                0
+                            } else if pad_mask_array[idx] {
+                                src_elem
+                            } else {
+                                zero_point
+                            };
+
                             if CAST_B_U8 {
-                                let src_elem = shift_cast_i8_u8(src_elem);
-                                let elem = if pad_mask_array[idx] { src_elem } else { 0 };
+                                let elem = shift_cast_i8_u8(src_elem);
                                 col_sums[c_block][idx] += elem as i32;
                                 out_elem.write(elem as i8);
                             } else {
-                                let elem = if pad_mask_array[idx] { src_elem } else { 0 };
-                                col_sums[c_block][idx] += elem as i32;
-                                out_elem.write(elem);
+                                col_sums[c_block][idx] += src_elem as i32;
+                                out_elem.write(src_elem);
                             }
                         }
                     }
